@@ -7,7 +7,8 @@ RULE = ('circles, ellipses (any rotation, also from_affine), elliptical arcs (st
         'ideal ellipse; Bernstein certificates decide rho within 1 +- T/rmin (violation) / 1 +- T/rmax (certified), in between counted inconclusive; '
         'contours closed, pieces joined end to end, swept angle equals the sweep (one traversal); polygon/Bezier shapes reproduced bit-exactly. '
         'Implementation compared with the Float instantiation of the Lean model (piece count exact, points 1e-9 of scale). non-trivial = distinct (shape, tolerance)')
-KERNEL_DEPS = [r'Affine\.(mul_Affine|translate|rotate|scale_non_uniform|translation|inverse|mul_Point)', r'Rect\.(abs|width|height|area|center)']
+KERNEL_DEPS = [r'Affine\.(mul_Affine|translate|rotate|scale_non_uniform|translation|inverse|mul_Point)', r'Rect\.(abs|width|height|area|center)',
+               r'K2:(pointOnCircle|rotatePt|sampleEllipse)', r'K2:CircleSegment\.(outer_arc|inner_arc)', r'K2:Affine\.svd', r'K2:Ellipse\.(private_new|center|radii|radii_and_rotation)', r'K2:RoundedRectRadii\..*']
 UNPROVED = ['"n pieces achieve T": the constants 1.1163 / 1.9608e-4 / 0.551915024494 are empirical: decided per instance by exact certificates',
             'ellipses with extreme aspect ratio: the certificate is inconclusive between T/rmax and T/rmin (counted)']
 ASSUMPTIONS = ['sin^2+cos^2=1 and periodicity laws for the end-point theorems (over the reals)']
